@@ -16,20 +16,26 @@ void module_constructor(const char name[])
     sim_note("EV ctor-begin %s", name);
     d = getenv(key);
     if (d && *d) {
-        char *c = strdup(d), *t, *sv, *nm[8];
+        char *c = strdup(d), *t, *sv, *nm[16];
         int n = 0, i;
         char mkey[96];
         snprintf(mkey, sizeof mkey, "VERIF_DEPMODE_%s", name);
-        for (t = strtok_r(c, ",", &sv); t && n < 8; t = strtok_r(NULL, ",", &sv))
+        for (t = strtok_r(c, ",", &sv); t && n < 16; t = strtok_r(NULL, ",", &sv))
             nm[n++] = strdup(t);    /* module_depends keeps the pointers: leaked on purpose */
-        if (getenv(mkey) && n >= 2 && n <= 6) {
+        if (getenv(mkey) && n >= 2 && n <= 12) {
             /* all dependencies declared in ONE call, as the API allows */
             switch (n) {
             case 2: module_depends(nm[0], nm[1], NULL); break;
             case 3: module_depends(nm[0], nm[1], nm[2], NULL); break;
             case 4: module_depends(nm[0], nm[1], nm[2], nm[3], NULL); break;
             case 5: module_depends(nm[0], nm[1], nm[2], nm[3], nm[4], NULL); break;
-            default: module_depends(nm[0], nm[1], nm[2], nm[3], nm[4], nm[5], NULL); break;
+            case 6: module_depends(nm[0], nm[1], nm[2], nm[3], nm[4], nm[5], NULL); break;
+            case 7: module_depends(nm[0], nm[1], nm[2], nm[3], nm[4], nm[5], nm[6], NULL); break;
+            case 8: module_depends(nm[0], nm[1], nm[2], nm[3], nm[4], nm[5], nm[6], nm[7], NULL); break;
+            case 9: module_depends(nm[0], nm[1], nm[2], nm[3], nm[4], nm[5], nm[6], nm[7], nm[8], NULL); break;
+            case 10: module_depends(nm[0], nm[1], nm[2], nm[3], nm[4], nm[5], nm[6], nm[7], nm[8], nm[9], NULL); break;
+            case 11: module_depends(nm[0], nm[1], nm[2], nm[3], nm[4], nm[5], nm[6], nm[7], nm[8], nm[9], nm[10], NULL); break;
+            default: module_depends(nm[0], nm[1], nm[2], nm[3], nm[4], nm[5], nm[6], nm[7], nm[8], nm[9], nm[10], nm[11], NULL); break;
             }
             for (i = 0; i < n; i++)
                 sim_note("EV dep-return %s %s", name, nm[i]);
